@@ -88,6 +88,7 @@ class TriggerHandler:
         """
         self.__old_thread_trace = None
         self.__old_sys_trace = None
+        self.__installed = False
         self._push_service = push_service
         self._tp_config: List[Trigger] = []
         self._config = config
@@ -106,6 +107,7 @@ class TriggerHandler:
         self.__old_thread_trace = threading.gettrace() if hasattr(threading, 'gettrace') else threading._trace_hook
         sys.settrace(self.trace_call)
         threading.settrace(self.trace_call)
+        self.__installed = True
 
     def new_config(self, new_config: List['Trigger']):
         """
@@ -223,5 +225,9 @@ class TriggerHandler:
 
         Reset the settrace to the previous values.
         """
+        # only put back what we replaced, if tracing is disabled (NO_TRACE) we never touched the trace functions
+        if not self.__installed:
+            return
+        self.__installed = False
         sys.settrace(self.__old_sys_trace)
         threading.settrace(self.__old_thread_trace)
